@@ -356,6 +356,7 @@ struct Explorer {
 
   // ---- layer C: all discrete paths — DFS over choice points owning at least one literal threshold
   long c_cap = 200000;
+  std::map<uint32_t, std::vector<double>> lit_memo;
   bool c_exhaustive = true;
   void layer_C_rec(const Forced & f, size_t from)
   {
@@ -365,10 +366,15 @@ struct Explorer {
     judge(o, f);
     if (o.p.horizon || o.r.horizon || o.p.threw) return;
     for (size_t i = from; i < o.ctx.size(); i++) {
-      std::vector<Root> roots = discover(f, i);
-      std::vector<double> lit;
-      for (auto & r : roots)
-        if (r.literal) lit.push_back(r.u);
+      // literal thresholds (branching ratios: p = 100*u against constants) depend on the site only: memo per site context
+      auto mit = lit_memo.find(o.ctx[i]);
+      if (mit == lit_memo.end()) {
+        std::vector<double> l0;
+        for (auto & r : discover(f, i))
+          if (r.literal) l0.push_back(r.u);
+        mit = lit_memo.emplace(o.ctx[i], l0).first;
+      }
+      std::vector<double> lit = mit->second;
       if (lit.empty()) continue;
       // interval representatives: just inside each side of every literal threshold
       std::vector<double> reps;
